@@ -203,37 +203,14 @@ func c16ParseRaces(stderr string) []c16RaceReport {
 
 const (
 	c16OpenapiPkg = "sigs.k8s.io/kustomize/kyaml/openapi."
-	c16ReinitRace = "C16/race-unlocked-read-vs-reinit-after-explicit-version"
 	c16MapFatal   = "C16/fatal-concurrent-map-access"
 )
 
-// c16RaceClass maps exactly the confirmed shape to its finding class; everything else keeps a class that names the
-// function pair (unlisted => VIOLATION).
-//
-//	known (only rounds that contain a tree spelling out `openapi: version: <default>`, which makes SetSchema clear
-//	       schemaInit so that another build re-runs initSchema): the unlocked reads that follow initSchema()
-//	       (SchemaForResourceType, rootSchema users) vs the writes of the re-parse.
-//	The former finding F9 (unlocked read in IsNamespaceScoped vs findNamespaceability) was repaired in /repo db2770f:
-//	that pair is no longer listed and is a VIOLATION if it ever comes back.
+// c16RaceClass: no race pair is listed any more — both confirmed races are repaired in /repo (db2770f: read lock in
+// IsNamespaceScoped; 5e76c27: SetSchema keeps the parsed schema when the built-in version in use is selected again).
+// Every reported pair keeps a class that names the function pair (unlisted => VIOLATION), also in rounds that
+// contain trees spelling out `openapi: version: <default>`.
 func c16RaceClass(rep c16RaceReport, explicitVersion bool) string {
-	r, w := "", ""
-	for _, f := range rep.Funcs {
-		if strings.HasPrefix(f, "read:") {
-			r = strings.TrimPrefix(f, "read:")
-		} else if strings.HasPrefix(f, "write:") && w == "" {
-			w = strings.TrimPrefix(f, "write:")
-		} else if strings.HasPrefix(f, "write:") {
-			r = strings.TrimPrefix(f, "write:") // write/write pair: keep both
-		}
-	}
-	initWrites := map[string]bool{c16OpenapiPkg + "findNamespaceability": true, c16OpenapiPkg + "AddDefinitions": true}
-	if explicitVersion && initWrites[w] && strings.HasPrefix(rep.Funcs[0], "read:") != strings.HasPrefix(rep.Funcs[1], "read:") {
-		switch strings.TrimPrefix(r, c16OpenapiPkg) {
-		case "SchemaForResourceType", "resolve", "Resolve", "rootSchema", "Schema",
-			"(*ResourceSchema).Field", "(*ResourceSchema).Elements", "(*ResourceSchema).Lookup":
-			return c16ReinitRace
-		}
-	}
 	return "C16/race:" + rep.Pair
 }
 
@@ -416,11 +393,7 @@ func c16EvalRace(r *Run, spec c16RaceSpec, job c16RaceJob, outs [][][]string, st
 			cls = c16MapFatal
 			digest = "the Go runtime aborted the process: " + firstLines(stderr[strings.Index(stderr, "fatal error: concurrent map"):], 14)
 		}
-		// the one listed shape: a crash of a round that contains explicit-version trees, with the crashing goroutine
-		// inside kyaml/openapi (the known re-initialisation race turning into an actual memory fault)
-		if explicitRound && strings.Contains(digest, "kyaml/openapi.") {
-			cls = c16ReinitRace
-		}
+		_ = explicitRound
 		r.Count("race_process_crash", cls)
 		r.Violation(OracleViolation{Law: "no_data_race", Class: cls, Detail: errText + "\n" + digest, Replay: replay()})
 	}
